@@ -30,7 +30,7 @@ func AllFaultKinds() []string {
 	for _, u := range UnexpectedKinds {
 		l = append(l, "shape:"+u)
 	}
-	l = append(l, "text-file", "bak-file", "dir", "dir-named-go", "dangling-symlink-go", "unannotated")
+	l = append(l, "text-file", "bak-file", "dir", "dir-named-go", "dangling-symlink-go", "dangling-symlink", "symlink-to-dir-go", "unannotated")
 	return l
 }
 
@@ -55,6 +55,10 @@ func faultEntry(r *detsim.Rand, kind, pos string, i int) Entry {
 		return Entry{Name: name, Kind: KDir}
 	case "dangling-symlink-go":
 		return Entry{Name: name, Kind: KSymlink}
+	case "dangling-symlink":
+		return Entry{Name: stem + ".lnk", Kind: KSymlink}
+	case "symlink-to-dir-go":
+		return Entry{Name: name, Kind: KSymlink, Raw: "dir"}
 	}
 	return Entry{Name: name, Kind: KGo, File: GenHealthy(r, "pb", false)}
 }
